@@ -123,6 +123,13 @@ impl PathSelector {
                     }
                 }
             }
+            // the root directory is its own separator
+            let root = MAIN_SEPARATOR.to_string();
+            if let (true, Some(aliases)) = (path.starts_with(&root), root_aliases.get(&root)) {
+                for given in aliases {
+                    names.push(format!("{given}{path}"));
+                }
+            }
         }
         names.push(path);
         names
@@ -136,6 +143,9 @@ impl PathSelector {
             if let Some(rest) = path.strip_prefix(resolved.as_str()) {
                 if rest.is_empty() || rest.starts_with(MAIN_SEPARATOR) {
                     names.push(format!("{given}{rest}"));
+                } else if resolved.ends_with(MAIN_SEPARATOR) {
+                    // the root directory is its own separator
+                    names.push(format!("{given}{MAIN_SEPARATOR}{rest}"));
                 }
             }
         }
